@@ -63,6 +63,15 @@ func (x *Exec) paramTerms(fn *ssa.Function, st *State) []Term {
 		x.wfDeep = true
 		x.wf(st, t, p.Type())
 		x.wfDeep = false
+		if _, isIface := underlying(p.Type()).(*types.Interface); isIface {
+			// values boxed in an interface parameter refer to objects that exist at entry
+			for _, bt := range x.eng.boxedTypes() {
+				switch underlying(bt).(type) {
+				case *types.Struct, *types.Slice:
+					x.vc.assert(implies(eq(iType(t), x.vc.typeID(bt)), x.refsOld(x.vc.unbox(bt, iVal(t)), bt, 0)))
+				}
+			}
+		}
 		switch underlying(p.Type()).(type) {
 		case *types.Pointer, *types.Map:
 			x.vc.assert(le(t, st.top))
@@ -269,7 +278,17 @@ func (e *Engine) globalsReached(fn *ssa.Function) map[*ssa.Global]bool {
 	}
 	visit(fn)
 	e.globCache[fn] = res
+	if e.reachCache == nil {
+		e.reachCache = map[*ssa.Function]map[*ssa.Function]bool{}
+	}
+	e.reachCache[fn] = seen
 	return res
+}
+
+// funcsReached: functions (real and ghost) reachable from fn; see globalsReached.
+func (e *Engine) funcsReached(fn *ssa.Function) map[*ssa.Function]bool {
+	e.globalsReached(fn)
+	return e.reachCache[fn]
 }
 
 func (x *Exec) assumeGlobalInvariants(fr *Frame, st *State) {
@@ -468,6 +487,9 @@ func (x *Exec) assumePureAxioms(fr *Frame, st *State) {
 		c := tp.Contracts[k]
 		if !c.Pure || len(c.Ensures) == 0 || c.Fn == fr.fn {
 			continue
+		}
+		if !x.eng.funcsReached(fr.fn)[c.Fn] {
+			continue // the unit cannot call it, not even from its specifications
 		}
 		sig := c.Fn.Signature
 		if sig.Results().Len() != 1 || !scalarParams(sig) {
